@@ -74,6 +74,8 @@ struct Op {
     std::vector<Blob> blobs; // input data placed into the task arena before the pass
     std::string in;          // scripted input of the op's read stream
     Fault f;
+    bool late = false;       // the blobs are written immediately before the call instead of before the pass: the thread
+                             // re-uses the buffers of an earlier call of its own for new data
 };
 struct TaskPlan {
     uint64_t arena_seed = 0;
@@ -217,6 +219,7 @@ struct PassCfg {
     int victim = -1;        // PASS_NULLOTHERS: only this task executes real ops
     bool track_static = false; // compare library statics around every op
     bool fresh_threads = true;
+    bool renew_threads = false; // between two ops of a task, put the library's per-thread state back to that of a new thread
     ExecFn exec = nullptr;
     bool null_event_ops = false;
     std::function<void()> before_tasks; // runs on the simulator thread after reset
@@ -255,6 +258,8 @@ extern thread_local Task *t_self;
 // residue whether or not the call was preempted.
 void alt_call(void (*fn)(void *), void *arg);
 void sim_global_init(const char *argv0);
+size_t lib_tls_size();   // size of the library's thread-local block (0 if it has none)
+void lib_thread_renew(); // calling thread: library TLS := initial image; library-created keys destructed and cleared
 void run_pass(const Plan &plan, const PassCfg &cfg, Strategy &strat, PassResult &out);
 void sim_event();                 // explicit yield point (harness callbacks)
 void sim_log(uint64_t kind, uint64_t a, uint64_t b); // append to the run's event log
